@@ -112,31 +112,31 @@ PROPS = {
         streams=[S("treetable", n_quick=625), S("treeset", n_quick=375)],
         relevant=rel_content,
         level_text=T("the coloured-tree model (CLRS case analysis as structural recursion, same shapes and colours as the C heap) refines an ordered map for every total-order comparator."),
-        level_note=LN + "The refinement theorems are about the inductive coloured tree. A second, pointer-level model (Model/PTree.lean: a heap of nodes with parent/left/right/color fields; Properties/C03PTree.lean) proves that rotations, transplant, the min/max/successor/predecessor walks and the insert fix-up loop commute with the inductive tree including all parent pointers; cc_treetable_add and remove_node as wholes are executed by the driver on both models and compared with the C heap at L3 (node ids, parent ids), not proved to commute. The shim additionally walks parent pointers, colours and black heights on the real heap.",
+        level_note=LN + "The refinement theorems are about the inductive coloured tree. A second, pointer-level model (Model/PTree.lean: a heap of nodes with parent/left/right/color fields; Properties/C03PTree.lean) proves that rotations, transplant, the min/max/successor/predecessor walks and the insert fix-up loop commute with the inductive tree including all parent pointers; cc_treetable_add and remove_node with both fix-up loops are proved end to end (add_wf, remove_node_wf, reachable_states_good) and the pointer-level model is proved to return exactly the ordered-map specification's statuses and out-values for whole histories under every refusal schedule (phistory_refines_ordmap; treeset: set_phistory_refines); both models are executed by the driver and compared with the C heap at L3 (node ids, parent ids). Not in the pointer-level model: the last frees of destroy (header, sentinel). The shim additionally walks parent pointers, colours and black heights on the real heap.",
     ),
     "C04": dict(
         streams=[S("list", n_quick=625), S("slist", n_quick=625)],
         relevant=rel_content,
         level_text=T("node-sequence-plus-bookkeeping models of both lists refine an ideal sequence incl. add_all/splice on two lists; pointer-level models (heaps of nodes with raw next/prev: Model/PList.lean, Model/PSList.lean) refine those, and backward traversal is proved to be the mirror of the forward one as a theorem about the links (C04PList.mirror)."),
-        level_note=LN + "Raw next/prev links are model state for every operation (incl. filter_mut, sorts, builders, the doubly linked list's zip mutators) and compared node by node with the C heap at L3 (id:data:prev:next); only the singly linked list's iterator and zip mutators are still sequence-level. The shim additionally walks the links on the real heap after every operation (WALK tokens).",
+        level_note=LN + "Raw next/prev links are model state for every operation (incl. filter_mut, sorts, builders, the doubly linked list's zip mutators) and compared node by node with the C heap at L3 (id:data:prev:next); no operation is left at sequence level; whole-program iterator theorems at pointer level exist for both lists (zip programs over two lists only per call). The shim additionally walks the links on the real heap after every operation (WALK tokens).",
     ),
     "C05": dict(
         streams=[S("deque", n_quick=750)],
         relevant=rel_content,
         level_text=T("the ring-buffer model of the deque (memmove by memmove) refines an ideal list in every (capacity, first, size) layout, for every index; partial on the known finding D3 (add_at front half), for which a negation theorem exhibits the failure."),
-        level_note=LN + "Known finding D3 is excluded by an explicit hypothesis in the add_at theorem and by one predicate in the generator; its witness is replayed on every run.",
+        level_note=LN + "Known finding D3 is excluded by an explicit hypothesis in the add_at theorems (_partial) and in the generator (d3_excluded; d3_risky_under_fault in streams that are run with refusals); the differ additionally judges D3 on the real state (d3_taint_hook: after a successful front-half insertion, read from the C side's own size and cursor, L1 content differences of that history belong to the finding); its witnesses are replayed on every run and pinned by a signature.",
     ),
     "C06": dict(
         streams=[S(c, focus="all", n_quick=150, small=False, valgrind=True, coverage=True, plain_pass=True) for c in ALL],
         relevant=rel_c06,
         level_text=T("for the buffer containers no reachable state makes a checked access fault (every slot index below the allocated slot count, no modulo by zero); for every container the ledger theorems show destroy releases every owned block exactly once.") + " One theorem is _partial on the known finding X5 (C06TST.remove_frees_entry_partial, key != empty). Partial by nature: use-after-free, uninitialised reads and pointer-level double frees in linked structures are runtime behaviour the models cannot exhibit; they are observed on sampled histories under ASan/UBSan (and valgrind in the thorough tier) with two allocation ledgers.",
-        level_note=LN + "Memory errors at the C level are observed, not proved.",
+        level_note=LN + "Memory errors at the C level are observed, not proved. Known findings printed by this check: splice between lists on different allocators (KF-splice-across-allocators) and zip iterators over one and the same linked list (KF-list-zip-same-list: use-after-free / leak); both are kept out of the generators by one named predicate each and replayed from their witnesses on every run.",
     ),
     "C07": dict(
         streams=[S(c, focus="iter", n_quick=300) for c in ["array", "array_sized", "deque", "list", "slist", "hashtable", "hashset", "treetable", "treeset", "tsttable", "queue", "stack"]],
         relevant=rel_content,
         level_text=T("iterator cursors are part of the models; theorems relate next/remove/add/replace to an ideal cursor over the abstract sequence (complete, in order, one-step mutation affects exactly the yielded position)."),
-        level_note=LN + "The program theorems quantify over all iterator programs, not only contract-respecting ones, and the generators emit repeated mutators after one next; the only exclusions are the contract violations that dereference NULL (list/slist iter_add with no current element, tree iter_remove before the first next). Nine theorems are _partial: six in C07Deque on the known finding D3 (iter_add/zip_iter_add at front-half positions) and three in C07TST on X5 (empty key); their witnesses are replayed on every run.",
+        level_note=LN + "The program theorems quantify over all iterator programs, not only contract-respecting ones, and the generators emit repeated mutators after one next; the only exclusions are the contract violations that dereference NULL (list/slist iter_add with no current element, tree iter_remove before the first next) and the known finding KF-list-zip-same-list (zip iterator over one and the same linked list, predicate zip_same_list_excluded). Nine theorems are _partial: six in C07Deque on the known finding D3 (iter_add/zip_iter_add at front-half positions) and three in C07TST on X5 (empty key); their witnesses are replayed on every run.",
     ),
     "C08": dict(
         streams=[S(c, focus="fault", n_quick=100, small=False, faults=True, coverage=True) for c in ["array", "array_sized", "pqueue", "deque", "list", "slist", "hashtable", "hashset", "treetable", "treeset", "tsttable", "queue", "stack", "rbuf", "dpool"]],
@@ -160,7 +160,7 @@ PROPS = {
         streams=[S("tsttable", n_quick=750)],
         relevant=rel_content,
         level_text=T("the ternary-tree model refines an ideal string-keyed map for non-empty keys; partial on the known finding X5 (empty key aliases the root), with a negation theorem."),
-        level_note=LN + "The pointer automaton of iter_next is tied to the recursive enumeration by the correspondence only.",
+        level_note=LN + "A pointer-level model (Model/PTST.lean: nodes with left/mid/right/parent ids) is proved to refine the inductive trie for whole histories under every refusal schedule (C11PTST.phistory_refines, phistory_ledger, piter_program_refines) and is executed alongside, so node identity and parent links are compared with the C heap at L3. Theorems that need the key to be non-empty carry the X5 exclusion and are named _partial.",
     ),
     "C12": dict(
         streams=[S("spool", n_quick=1000)],
